@@ -38,6 +38,9 @@ def _child(job: Job, mode: str, suppress, conn):
     t0 = time.time()
     res = {"job": job.label(), "mode": mode, "verdict": "ERROR", "args": None, "detail": ""}
     try:
+        import resource
+        lim = int(float(os.environ.get("VERIF_CHILD_MEM_GB", "6")) * (1 << 30))
+        resource.setrlimit(resource.RLIMIT_AS, (lim, lim))
         sys.setrecursionlimit(10000)
         from vf.xh import loader
         loader.install(rewrite=True, assoc_dict_modules=job.assoc)
@@ -119,8 +122,11 @@ def _child(job: Job, mode: str, suppress, conn):
         res["solver_calls"] = stats["calls"]
         res["solver_time"] = round(stats["time"], 3)
         res["loaded"] = {k: v for k, v in loader.LOADED.items()}
+    except MemoryError:
+        res["verdict"] = "MEMOUT"
+        res["detail"] = "child exceeded its address-space limit"
     except BaseException as e:  # noqa
-        res["verdict"] = "ERROR"
+        res["verdict"] = "MEMOUT" if "out of memory" in repr(e) else "ERROR"
         res["detail"] = "".join(traceback.format_exception(type(e), e, e.__traceback__))[-3000:]
     res["wall"] = round(time.time() - t0, 2)
     try:
